@@ -168,7 +168,8 @@ pub struct JoinHandle<R>(open_coroutine_core::net::join::JoinHandle, PhantomData
 impl<R> JoinHandle<R> {
     pub fn timeout_join(&self, dur: Duration) -> std::io::Result<Option<R>> {
         unsafe {
-            let ptr = task_timeout_join(self, dur.as_nanos().try_into().expect("overflow"));
+            // durations beyond u64 nanoseconds (`Duration::MAX`) wait as long as can be expressed
+            let ptr = task_timeout_join(self, u64::try_from(dur.as_nanos()).unwrap_or(u64::MAX));
             match ptr.cmp(&0) {
                 Ordering::Less => Err(Error::other("timeout join failed")),
                 Ordering::Equal => Ok(None),
